@@ -368,7 +368,9 @@ class SourceFile:
             seg = segs[i]
             found = None
             if seg.startswith('impl '):
-                cands = [it for it in level if it.kind == 'impl' and impl_key(it.name) == seg]
+                cands = [it for it in level if it.kind == 'impl' and re.sub(r'\s+', ' ', it.name).strip() == seg]
+                if not cands:
+                    cands = [it for it in level if it.kind == 'impl' and impl_key(it.name) == seg]
                 if len(cands) != 1:
                     raise KeyError('%s: %d impl blocks match %r' % (self.path, len(cands), seg))
                 found = cands[0]
